@@ -347,6 +347,24 @@ func (bv *bview) produceAttesterSlashing(mc *MsgCase, clockMs int64) (*plan, str
 	n := uint64(len(head.Validators))
 	switch mc.Corrupt {
 	case "":
+		if mc.C%3 == 2 && len(slashed) > 0 {
+			// three-step history: validator a is slashed in the head state but was never seen in a gossiped
+			// slashing; a slashing of b alone is ACCEPTed (b is now seen, and still slashable in the head
+			// state); then a slashing of {a, b}: a is unseen and b is slashable -> ACCEPT as well
+			b, a := good[pr.n(len(good))], slashed[pr.n(len(slashed))]
+			f1, ok1 := bv.signIndexed(head, []uint64{b}, d1)
+			f2, ok2 := bv.signIndexed(head, []uint64{b}, d2)
+			both := sortedSet(map[uint64]bool{a: true, b: true})
+			g1, ok3 := bv.signIndexed(head, both, d1)
+			g2, ok4 := bv.signIndexed(head, both, d2)
+			if ok1 && ok2 && ok3 && ok4 {
+				first := step{msg: &refspec.AttesterSlashing{A1: f1, A2: f2}, clockMs: clockMs, role: "honest"}
+				second := step{msg: &refspec.AttesterSlashing{A1: g1, A2: g2}, clockMs: clockMs, role: "honest"}
+				pl.steps = []step{first, second}
+				pl.tag = "attester_slashing:seen-slashable-plus-unseen-slashed"
+				return pl, ""
+			}
+		}
 		if mc.C%3 == 0 {
 			// a second slashing of a strict superset: one more (unseen) index in the intersection -> still ACCEPT
 			var extra uint64
